@@ -13,9 +13,11 @@ THEOREMS = [
     "Vinegar.C09.decodeFields_encode",
     "Vinegar.C09.decodeFields_sound",
     "Vinegar.C09.requestPort_reply_le_one",
+    "Vinegar.C09.requestPort_non_rrq",
     "Vinegar.C09.c09Check_runTransfer",
+    "Vinegar.C09.peer_error_silent",
     "Vinegar.C09.invalid_packet_one_error",
-    "Vinegar.C09.foreign_noninterference",
+    "Vinegar.C09.foreign_gets_error5",
 ]
 TRUSTED_BASE = T.TRUSTED_BASE
 ASSUMPTIONS = T.ASSUMPTIONS
